@@ -54,7 +54,16 @@ RULE = (
     "MBXML.DEBUG on while serialising.  Distinct by case hash (boundary pass: "
     "de-duplicated list); "
     "non-trivial: >= 2 tokens, or >= 2 documents, or an inline constant table (documents, lookup); the parser got past the "
-    "first document header (mutated)."
+    "first document header (mutated).  batches: several buffers / lookup assemblies / stimulus calls in ONE process, every parsed "
+    "document kept and judged again (values, bytes) at the end: element id 0x56 with equal numeric value in a request-family "
+    "document (ufloatvar N.0) and a report-family document (uint8 N) for EVERY N in 0..255, in the arrangements two buffers "
+    "(both orders) / one buffer (both orders) / X Y X / via the lookup API / with a refused parse or a wrong-family lookup in "
+    "between; same integer part with non-zero fraction; every id the two families share (0x34 0x51 0x56 0x66 0x69) x boundary "
+    "values of both kinds; equal numbers under every numeric id of a family; the boundary documents with their other-family "
+    "twin (same ids, numerically equal values) and same-family twins (other document id, table inline / implied, one value "
+    "changed, one token dropped / doubled); Hypothesis batches of such twins; each batch is judged in a process of its own that "
+    "starts from a freshly imported library.  Preludes (framework: every 8th held case is judged again after them): the case's documents re-typed into the other "
+    "family, under sibling ids, through the lookup API (right and wrong family), truncated with debug=True."
 )
 ASSUMPTIONS = [
     "canonical form = vp/refs/mbxml_ref.py (shortest uintvar/sintvar, one fraction septet); unit-checked against the "
@@ -331,28 +340,39 @@ def _documents_inner(case):
         M.DEBUG = True
     if len(parsed) != len(docs):
         raise Fail("number_of_documents", len(parsed), len(docs))
+    for k, (d, p) in enumerate(zip(docs, parsed)):
+        _check_parsed_doc(k, d, p)
     for k, (d, p, x) in enumerate(zip(docs, parsed, parts)):
-        group = R.GROUPS[R.DOC_GROUP[d["id"]]]
-        if p.id.value[0] != d["id"]:
-            raise Fail("document_id", p.id.value[0], d["id"])
-        if len(p.parts) != len(d["tokens"]):
-            raise Fail("number_of_tokens", {"doc": k, "tokens": [t.token_id for t in p.parts]}, [t[0] for t in d["tokens"]])
-        for j, (tok, (tid, v)) in enumerate(zip(p.parts, d["tokens"])):
-            kind = group[tid][1]
-            if tok.token_id != tid:
-                raise Fail("token_id", {"doc": k, "token": j, "id": tok.token_id}, tid)
-            if not _same_value(tok.value, py_value(kind, v)):
-                raise Fail("token_value", {"doc": k, "token": j, "value": jsonable(tok.value)}, jsonable(py_value(kind, v)), klass=kind)
-            if kind in ("attr_opaque", "attr_none"):
-                want_attr = v[0] if kind == "attr_opaque" else v
-                if _explicit_attrs(tok) != [["result-code", want_attr]]:
-                    raise Fail("attribute_value", {"doc": k, "token": j, "attributes": _explicit_attrs(tok)}, [["result-code", want_attr]], klass=kind)
-        if d.get("table") is not None and bytes(p.constants_table) != bytes.fromhex(d["table"]):
-            raise Fail("inline_constant_table", bytes(p.constants_table).hex(), d["table"])
-    for k, (p, x) in enumerate(zip(parsed, parts)):
-        _, out = call(M.as_bytes, p)
-        if bytes(out) != x:
-            raise Fail("reserialised_bytes_identical", {"doc": k, "bytes": bytes(out).hex()}, x.hex(), klass=_first_diff_kind(docs[k], bytes(out), x))
+        _check_reserialised(k, d, p, x)
+    return parsed, parts
+
+
+def _check_parsed_doc(k, d, p):
+    """the parsed document p has the id, token ids, values, attribute values and inline table of the generated document d"""
+    group = R.GROUPS[R.DOC_GROUP[d["id"]]]
+    if p.id.value[0] != d["id"]:
+        raise Fail("document_id", p.id.value[0], d["id"])
+    if len(p.parts) != len(d["tokens"]):
+        raise Fail("number_of_tokens", {"doc": k, "tokens": [t.token_id for t in p.parts]}, [t[0] for t in d["tokens"]])
+    for j, (tok, (tid, v)) in enumerate(zip(p.parts, d["tokens"])):
+        kind = group[tid][1]
+        if tok.token_id != tid:
+            raise Fail("token_id", {"doc": k, "token": j, "id": tok.token_id}, tid)
+        if not _same_value(tok.value, py_value(kind, v)):
+            raise Fail("token_value", {"doc": k, "token": j, "value": jsonable(tok.value)}, jsonable(py_value(kind, v)), klass=kind)
+        if kind in ("attr_opaque", "attr_none"):
+            want_attr = v[0] if kind == "attr_opaque" else v
+            if _explicit_attrs(tok) != [["result-code", want_attr]]:
+                raise Fail("attribute_value", {"doc": k, "token": j, "attributes": _explicit_attrs(tok)}, [["result-code", want_attr]], klass=kind)
+    if d.get("table") is not None and bytes(p.constants_table) != bytes.fromhex(d["table"]):
+        raise Fail("inline_constant_table", bytes(p.constants_table).hex(), d["table"])
+
+
+def _check_reserialised(k, d, p, x: bytes):
+    M = libs()[0]
+    _, out = call(M.as_bytes, p)
+    if bytes(out) != x:
+        raise Fail("reserialised_bytes_identical", {"doc": k, "bytes": bytes(out).hex()}, x.hex(), klass=_first_diff_kind(d, bytes(out), x))
 
 
 def _first_diff_kind(doc, out: bytes, x: bytes) -> str:
@@ -673,7 +693,7 @@ def _strategies():
         return {"data": (R.uintvar(d["id"]) + R.uintvar(len(body)) + body).hex()}
 
     arbitrary = st.tuples(st.sampled_from(doc_ids + [0, 1, 0x16, 0x27, 0x28, 0x80]), st.binary(max_size=40)).map(lambda t: {"data": (bytes([t[0]]) + t[1]).hex()})
-    return {"docs": docs, "lookup": lookup(), "mutated": st.one_of(mutated(), mutated(), noncanonical(), arbitrary)}
+    return {"docs": docs, "doc": doc(), "values": values, "lookup": lookup(), "mutated": st.one_of(mutated(), mutated(), noncanonical(), arbitrary)}
 
 
 # ---------------------------------------------------------------------------------------------- drivers
@@ -1028,6 +1048,429 @@ def drv_mutated(ctx: Ctx, sub: SubCheck):
     ctx.shards(hyp, list(range(ctx.pick(16, 80))))
 
 
+# ---------------------------------------------------------------------------------------------- families / batches (round 7)
+#
+# The LRRP element ids are not unique: the request family and the answer / report family give different meanings - and
+# different wire types - to the same id (0x56 request-altitude-acc UFLOATVAR / direction-hor UINT8, 0x34 periodic-trigger /
+# info-time, 0x51 ret-info / circle-2d, 0x66 require-altitude / point-2d, 0x69 require-direction-hor / point-3d).  A
+# process that serves both directions of the protocol parses and writes both.  State keyed on the element id (and value)
+# without the family / token type - a memo of serialised numbers, a cached token configuration - only shows when THE SAME ID
+# WITH AN EQUAL VALUE (5 == 5.0) went through the other family first.  Likewise for near twins inside one family (same
+# tokens under another document id, with the table inline instead of implied, one value changed) and for documents kept
+# after parsing and serialised later.
+#   prelude_for   the case's documents re-typed into the other family (same ids, numerically equal values), under sibling
+#                 document ids, through the lookup API of the other family, damaged (rightly refused), with debug=True
+#   batches       (sub-check) steps {docs} (the clauses of 'documents' on one buffer; the parsed documents are KEPT) /
+#                 {lookup} (the clauses of 'lookup') / {x, a} (stimulus); finally every kept document is judged again
+#                 (token values, bytes).  Judged in a process of its own (vp/isolate.py).
+
+SHARED_IDS = sorted(set(R.REQUEST) & set(R.REPORT))
+_NUMERIC = {"uintvar", "uint8", "ufloat", "sfloat", "attr_none"}
+
+
+def _number_of(kind, v):
+    """integer part of a numeric token value (None for the other kinds)"""
+    if kind in ("uintvar", "uint8", "attr_none"):
+        return v
+    if kind == "ufloat":
+        return v[0]
+    if kind == "sfloat":
+        return v[1]
+    if kind == "attr_opaque":
+        return v[0]
+    if kind == "point3d":
+        return v[2][1]
+    if kind == "circle2d":
+        return v[2][0]
+    return None
+
+
+def convert_value(kind_from, v, kind_to, k=0):
+    """the value of a token re-typed to kind_to: numerically equal where both kinds are numeric and the number fits, else a
+    boundary value of kind_to"""
+    if kind_from == kind_to:
+        return v
+    n = _number_of(kind_from, v)
+    if n is not None:
+        if kind_to == "uint8":
+            return n % 256
+        if kind_to in ("uintvar", "attr_none"):
+            return n
+        if kind_to == "ufloat":
+            return [n, 0]
+        if kind_to == "sfloat":
+            return [0, n & S_MAX, 0]
+    vals = BOUNDARY_VALUES[kind_to]
+    return vals[k % len(vals)]
+
+
+def other_family_twin(d, k=0):
+    """the document re-typed into the other family: every token whose id the other family admits, with the converted value"""
+    g_from = R.DOC_GROUP[d["id"]]
+    g_to = {"request": "report", "report": "request"}.get(g_from, ["request", "report"][k % 2])
+    ids = sorted(i for i, g in R.DOC_GROUP.items() if g == g_to)
+    did = ids[k % len(ids)]
+    gf, gt = R.GROUPS[g_from], R.GROUPS[g_to]
+    toks = [[tid, convert_value(gf[tid][1], v, gt[tid][1], k + j)] for j, (tid, v) in enumerate(d["tokens"]) if tid in gt]
+    return {"id": did, "table": None if did in R.NCDT_IDS else (d.get("table") if d.get("table") is not None else ["", _STD.hex()][k % 2]), "tokens": toks}
+
+
+def same_family_twins(d, k=0):
+    """near twins inside the family: another document id (table implied / inline), one value changed, one token dropped / doubled"""
+    g = R.DOC_GROUP[d["id"]]
+    group = R.GROUPS[g]
+    ids = sorted(i for i, gg in R.DOC_GROUP.items() if gg == g and i != d["id"])
+    out = []
+    if ids:
+        did = ids[k % len(ids)]
+        out.append({"id": did, "table": None if did in R.NCDT_IDS else (d.get("table") if d.get("table") is not None else ["", _STD.hex()][k % 2]), "tokens": d["tokens"]})
+    toks = d["tokens"]
+    if toks:
+        j = k % len(toks)
+        tid, v = toks[j]
+        kind = group[tid][1]
+        vals = [x for x in BOUNDARY_VALUES[kind] if x != v]
+        n = _number_of(kind, v)
+        if kind in _NUMERIC and n is not None:
+            near = [convert_value("uintvar", m, kind) for m in (n + 1, n - 1, n ^ 0x40, n * 128, n // 128) if 0 <= m <= (255 if kind == "uint8" else S_MAX)]
+            if kind in ("ufloat", "sfloat"):
+                near += [v[:-1] + [(v[-1] + 64) % 128]]
+                if kind == "sfloat" and (v[1] or v[2]):
+                    near.append([1 - v[0], v[1], v[2]])
+            vals = [x for x in near if x != v] + vals
+        if vals:
+            out.append(dict(d, tokens=toks[:j] + [[tid, vals[(k // 2) % len(vals)]]] + toks[j + 1:]))
+        out.append(dict(d, tokens=toks[:j] + toks[j + 1:]))
+        out.append(dict(d, tokens=toks[:j] + [toks[j], toks[j]] + toks[j + 1:]))
+    return out
+
+
+def _op_roundtrip(a):
+    """{hex, debug?}: parse a buffer, serialise / render / print every document"""
+    M = libs()[0]
+    try:
+        for d in M.from_bytes(bytes.fromhex(a["hex"]), bool(a.get("debug", False))):
+            M.as_bytes(d)
+            d.as_xml()
+            repr(d)
+    finally:
+        M.DEBUG = False
+
+
+def _op_lookup(a):
+    """a lookup case (see oracle_lookup): assemble through get_token and serialise"""
+    M = libs()[0]
+    doc, _ = _lookup_build(a)
+    if doc is not None:
+        M.as_bytes(doc)
+        doc.as_xml()
+
+
+PRELUDE_OPS = {"roundtrip": _op_roundtrip, "lookup": _op_lookup}
+
+
+def _as_lookup(d, flip_request=False):
+    """the lookup case that assembles document d token by token (by id)"""
+    gname = R.DOC_GROUP[d["id"]]
+    calls = []
+    for n, (tid, v) in enumerate(d["tokens"]):
+        c = _call_for(gname, tid, v, n)
+        if flip_request:
+            c = dict(c, is_request=not c["is_request"])
+        calls.append(c)
+    return {"doc_id": d["id"], "table": d.get("table"), "calls": calls}
+
+
+def sibling_calls_for_docs(docs, rng):
+    calls = []
+    for d in docs[:3]:
+        k = rng.randrange(1000)
+        tw = other_family_twin(d, k)
+        calls.append({"x": "roundtrip", "a": {"hex": R.document_bytes(tw).hex()}})
+        calls.append({"x": "roundtrip", "a": {"hex": (R.document_bytes(tw) + R.document_bytes(d)).hex(), "debug": bool(k % 2)}})
+        calls.append({"x": "lookup", "a": _as_lookup(tw)})
+        for t in same_family_twins(d, k)[:2]:
+            calls.append({"x": "roundtrip", "a": {"hex": R.document_bytes(t).hex()}})
+        # the lookup API of the wrong family on the same ids / values (mostly refused), and damaged images of the document
+        calls.append({"x": "lookup", "a": _as_lookup(d, flip_request=True)})
+        x = R.document_bytes(d)
+        other = sorted(i for i, g in R.DOC_GROUP.items() if g != R.DOC_GROUP[d["id"]])
+        calls.append({"x": "roundtrip", "a": {"hex": (bytes([other[k % len(other)]]) + x[1:]).hex()}})
+        calls.append({"x": "roundtrip", "a": {"hex": x[: max(2, len(x) - 1 - k % 3)].hex(), "debug": True}})
+    rng.shuffle(calls)
+    return calls[:10]
+
+
+def prelude_for(sub, case, rng):
+    if sub in ("documents", "mode_flags"):
+        return sibling_calls_for_docs(case["docs"], rng)
+    if sub == "lookup":
+        return sibling_calls_for_docs(_lookup_as_docs(case), rng)
+    if sub in ("mutated", "atheris"):
+        data = bytes.fromhex(case["data"])
+        if not data:
+            return []
+        other = sorted(R.DOC_GROUP)
+        return [{"x": "roundtrip", "a": {"hex": (bytes([other[rng.randrange(len(other))]]) + data[1:]).hex()}}, {"x": "roundtrip", "a": {"hex": data[:-1].hex(), "debug": True}},
+                {"x": "roundtrip", "a": {"hex": (data + data).hex()}}]
+    return []
+
+
+def _batches_inner(case):
+    M = libs()[0]
+    kept = []  # (step, index in buffer, generated document, parsed document, its bytes)
+    for n, st_ in enumerate(case["steps"]):
+        if "x" in st_:
+            try:
+                PRELUDE_OPS[st_["x"]](st_["a"])
+            except _Timeout:
+                raise
+            except Exception:
+                pass  # stimulus only
+            finally:
+                M.DEBUG = False
+        elif "lookup" in st_:
+            try:
+                _lookup_inner(st_["lookup"])
+            except Fail as f:
+                raise Fail(f.clause + "__in_batch", {"step": n, "observed": f.observed}, f.expected, klass="lookup" + (":" + f.klass if f.klass else ""))
+        else:
+            try:
+                parsed, parts = _documents_inner(st_)
+            except Fail as f:
+                raise Fail(f.clause + "__in_batch", {"step": n, "observed": f.observed}, f.expected, klass="documents" + (":" + f.klass if f.klass else ""))
+            kept += [(n, k, d, p_, x) for k, (d, p_, x) in enumerate(zip(st_["docs"], parsed, parts))]
+    order = [kept[i % len(kept)] for i in case.get("again", [])] + kept if kept else []
+    for n, k, d, p_, x in order:
+        try:
+            _check_parsed_doc(k, d, p_)
+            _check_reserialised(k, d, p_, x)
+        except Fail as f:
+            raise Fail("kept_document_" + f.clause, {"step": n, "observed": f.observed}, f.expected, klass=f.klass)
+
+
+def _batch_docs(case):
+    return [d for st_ in case["steps"] if "docs" in st_ for d in st_["docs"]] + [d for st_ in case["steps"] if "lookup" in st_ for d in _lookup_as_docs(st_["lookup"])]
+
+
+_batches_wrapped = attribute_to_c14(_batch_docs)
+
+
+def _oracle_batches(case):
+    """case = {steps: [{docs: [...]} | {lookup: {...}} | {x, a}, ...], again: [indices into the kept documents]}"""
+    with tables_guard():
+        _batches_wrapped(_batches_inner, case)
+
+
+def _warm_batches():
+    libs()
+    with tables_guard():
+        pass
+
+
+from vp.isolate import isolated  # noqa: E402
+
+oracle_batches = isolated(_oracle_batches, warm=_warm_batches)
+
+
+def _req(tokens, k=0):
+    ids = [0x05, 0x09, 0x0F, 0x14, 0x04, 0x08, 0x0E]
+    did = ids[k % len(ids)]
+    return {"id": did, "table": None if did in R.NCDT_IDS else ["", _STD.hex()][k % 2], "tokens": tokens}
+
+
+def _rep(tokens, k=0):
+    ids = [0x07, 0x0D, 0x11, 0x13, 0x15, 0x06, 0x0C, 0x10, 0x12]
+    did = ids[k % len(ids)]
+    return {"id": did, "table": None if did in R.NCDT_IDS else ["", _STD.hex()][k % 2], "tokens": tokens}
+
+
+def _arrangements(x, y, k):
+    """the ways two documents meet in one process: two buffers (both orders), one buffer (both orders), X Y X"""
+    k %= 9
+    if k == 7:  # a rightly refused parse of the other document (truncated, debug=True) in between
+        yb = R.document_bytes(y)
+        return [{"docs": [x]}, {"x": "roundtrip", "a": {"hex": yb[: max(2, len(yb) - 1)].hex(), "debug": True}}, {"docs": [y]}, {"docs": [x]}]
+    if k == 8:  # the lookup API of the wrong family on the other document's ids / values (mostly refused) in between
+        return [{"docs": [y]}, {"x": "lookup", "a": _as_lookup(x, flip_request=True)}, {"docs": [x]}, {"x": "lookup", "a": _as_lookup(y, flip_request=True)}, {"docs": [y]}]
+    return [
+        [{"docs": [x]}, {"docs": [y]}], [{"docs": [y]}, {"docs": [x]}], [{"docs": [x, y]}], [{"docs": [y, x]}], [{"docs": [x]}, {"docs": [y]}, {"docs": [x]}],
+        [{"docs": [x]}, {"lookup": _as_lookup(y)}, {"docs": [x]}], [{"lookup": _as_lookup(x)}, {"docs": [y]}, {"lookup": _as_lookup(x)}],
+    ][k]
+
+
+def batches_deterministic_cases():
+    out = []
+    i = 0
+    # 0x56 in both families with equal numeric value: every uint8 (complete), every arrangement in turn
+    for n in range(256):
+        for r in range(2):
+            i += 1
+            x = _req([FILLER, [0x56, [n, 0]]] if i % 3 else [[0x56, [n, 0]]], i)
+            y = _rep([[0x56, n], [0x23, "2f"]] if i % 2 else [[0x56, n]], i // 2)
+            out.append(({"steps": _arrangements(x, y, i) if r == 0 else _arrangements(y, x, i + 3), "again": [0]}, "id_0x56_equal_number_in_both_families"))
+    # same integer part, fraction not zero; neighbours; values above 255 (not equal: must be independent as well)
+    for n in (0, 1, 63, 64, 127, 128, 200, 255):
+        for f in (1, 64, 127):
+            i += 1
+            x, y = _req([[0x56, [n, f]]], i), _rep([[0x56, n]], i)
+            out.append(({"steps": _arrangements(x, y, i), "again": [1, 0]}, "id_0x56_same_integer_part"))
+    # every id the two families share x boundary values of both kinds x arrangements
+    for tid in SHARED_IDS:
+        kq, kp = R.REQUEST[tid][1], R.REPORT[tid][1]
+        for a, vq in enumerate(BOUNDARY_VALUES[kq][:8]):
+            for b, vp in enumerate(BOUNDARY_VALUES[kp][:8]):
+                i += 1
+                x, y = _req([[tid, vq], FILLER][:: 1 if i % 2 else -1], i), _rep([FILLER, [tid, vp]][:: 1 if i % 3 else -1], i)
+                out.append(({"steps": _arrangements(x, y, i), "again": [i % 2]}, "shared_id_in_both_families"))
+    # numeric tokens of one family against each other: equal numbers under different ids / kinds in one document and in two
+    nums_q = [t for t in sorted(R.REQUEST) if R.REQUEST[t][1] in _NUMERIC]
+    nums_p = [t for t in sorted(R.REPORT) if R.REPORT[t][1] in _NUMERIC]
+    for n in (0, 1, 5, 63, 64, 100, 127, 128, 255, 256, 8192, 16383, 2**21, 2**31 - 1):
+        for fam, ids, mk in (("request", nums_q, _req), ("report", nums_p, _rep)):
+            g = R.GROUPS[fam]
+            toks = [[t, convert_value("uintvar", n, g[t][1])] for t in ids if g[t][1] != "uint8" or n <= 255]
+            i += 1
+            out.append(({"steps": [{"docs": [mk(_rot(toks, i), i)]}, {"docs": [mk(_rot(toks, i + 1), i + 1)]}], "again": [0]}, "equal_number_under_every_numeric_id"))
+            tw = other_family_twin(mk(toks, i), i)
+            out.append(({"steps": _arrangements(mk(toks, i), tw, i), "again": [0]}, "equal_number_under_every_numeric_id"))
+    # the boundary documents of pass A with their other-family twin and a same-family twin
+    singles = [c["docs"][0] for c, cls in boundary_document_cases() if cls.startswith("position_")]
+    for j, d in enumerate(singles[:: max(1, len(singles) // 300)]):
+        i += 1
+        tw = other_family_twin(d, i)
+        out.append(({"steps": _arrangements(d, tw, i), "again": [0, 1]}, "boundary_document_and_other_family_twin"))
+        sf = same_family_twins(d, i)
+        if sf:
+            out.append(({"steps": _arrangements(d, sf[i % len(sf)], i + 1), "again": [1]}, "boundary_document_and_same_family_twin"))
+    return _dedupe(out)
+
+
+def _rot(lst, k):
+    k %= max(1, len(lst))
+    return lst[k:] + lst[:k]
+
+
+def _batches_strategy():
+    from hypothesis import strategies as st
+
+    S = _strategies()
+    values = S["values"]
+
+    @st.composite
+    def shared(draw):
+        """request and report documents over the shared ids with numerically aligned values"""
+        n = draw(st.one_of(st.integers(0, 255), st.sampled_from([0, 1, 5, 64, 127, 128, 255])))
+        f = draw(st.sampled_from([0, 0, 0, 1, 64]))
+        tq, tp = [[0x56, [n, f]]], [[0x56, n]]
+        for tid in draw(st.lists(st.sampled_from([t for t in SHARED_IDS if t != 0x56] + [0x22, 0x23]), max_size=3)):
+            if tid in R.COMMON:
+                v = draw(values[R.COMMON[tid][1]])
+                tq.insert(draw(st.integers(0, len(tq))), [tid, v])
+                tp.insert(draw(st.integers(0, len(tp))), [tid, v])
+            else:
+                tq.insert(draw(st.integers(0, len(tq))), [tid, draw(values[R.REQUEST[tid][1]])])
+                tp.insert(draw(st.integers(0, len(tp))), [tid, draw(values[R.REPORT[tid][1]])])
+        k = draw(st.integers(0, 62))
+        x, y = _req(tq, k), _rep(tp, k // 7)
+        if draw(st.booleans()):
+            x, y = y, x
+        return {"steps": _arrangements(x, y, draw(st.integers(0, 8))), "again": draw(st.lists(st.integers(0, 3), max_size=3))}
+
+    @st.composite
+    def twins(draw):
+        d = draw(S["doc"])
+        k = draw(st.integers(0, 999))
+        cands = [other_family_twin(d, k)] + same_family_twins(d, k)
+        docs = [d] + [cands[j % len(cands)] for j in draw(st.lists(st.integers(0, 5), min_size=1, max_size=2))]
+        steps = []
+        how = draw(st.sampled_from(["separate", "separate", "one_buffer", "xyx", "mixed"]))
+        if how == "one_buffer":
+            steps = [{"docs": list(draw(st.permutations(docs)))}]
+        elif how == "xyx":
+            steps = [{"docs": [docs[0]]}] + [{"docs": [t]} for t in docs[1:]] + [{"docs": [docs[0]]}]
+        else:
+            for t in draw(st.permutations(docs)):
+                steps.append({"lookup": _as_lookup(t)} if how == "mixed" and draw(st.booleans()) and all(R.GROUPS[R.DOC_GROUP[t["id"]]][tid][1] not in ("point3d",) or True for tid, _ in t["tokens"]) else {"docs": [t]})
+        if draw(st.integers(0, 4)) == 0:
+            x = R.document_bytes(docs[-1])
+            steps.insert(draw(st.integers(0, len(steps))), {"x": "roundtrip", "a": {"hex": x[: max(2, len(x) - 1)].hex(), "debug": True}})
+        return {"steps": steps, "again": draw(st.lists(st.integers(0, 5), max_size=3))}
+
+    return st.one_of(shared(), twins(), twins())
+
+
+def _batch_classes(c):
+    out = [f"steps_{min(len(c['steps']), 4)}"]
+    fams = set()
+    seen = {}
+    hit = False
+    for st_ in c["steps"]:
+        ds = st_.get("docs") or (_lookup_as_docs(st_["lookup"]) if "lookup" in st_ else [])
+        if "lookup" in st_:
+            out.append("with_lookup_step")
+        if "x" in st_:
+            out.append("with_stimulus_step")
+        if len(ds) >= 2:
+            out.append("several_documents_in_one_buffer")
+        for d in ds:
+            fam = R.DOC_GROUP[d["id"]]
+            fams.add(fam)
+            g = R.GROUPS[fam]
+            for tid, v in d["tokens"]:
+                n = _number_of(g[tid][1], v) if g[tid][1] in _NUMERIC else None
+                if n is not None and not (g[tid][1] in ("ufloat", "sfloat") and v[-1] != 0):
+                    for (fam2, kind2) in seen.get((tid, n), ()):
+                        if fam2 != fam and kind2 != g[tid][1]:
+                            hit = True
+                    seen.setdefault((tid, n), set()).add((fam, g[tid][1]))
+    if len(fams) >= 2:
+        out.append("both_families")
+    if hit:
+        out.append("same_id_equal_number_in_both_families")
+    return sorted(set(out))
+
+
+def _drv_batches(ctx: Ctx, sub: SubCheck):
+    cases = batches_deterministic_cases()
+
+    def work(ch, t: Tally):
+        for c, cls in ch:
+            ctx.run_case(sub.name, oracle_batches, c, t)
+            t.case(sub.name, nontrivial=True, cls="deterministic:" + cls)
+            for k in _batch_classes(c):
+                t.cls(sub.name, k)
+        if ch:
+            t.sample(sub.name, ch[0][0])
+
+    ctx.shards(work, [cases[i::32] for i in range(32)])
+    ctx.tally.extra.setdefault("deterministic_boundary_cases", {})[sub.name] = len(cases)
+    strat = _batches_strategy()
+
+    def rec(c, t: Tally):
+        t.case(sub.name, key=c, nontrivial=True)
+        for k in _batch_classes(c):
+            t.cls(sub.name, "random:" + k)
+
+    warm_hypothesis_constants()
+    ctx.shards(lambda i, t: ctx.hypothesis(sub.name, strat, oracle_batches, ctx.pick(100, 1000), tally=t, shard=i, record=rec), list(range(ctx.pick(16, 48))))
+
+
+NO_PRELUDE = False  # read by vp.core (Ctx.prelude_enabled) at every case
+
+
+def drv_batches(ctx: Ctx, sub: SubCheck):
+    """The cases of this sub-check are judged by a judge server (vp/isolate.py) that the framework's preludes - which run in the
+    calling process - cannot reach: judging a case "again after a prelude" would only repeat the first judgement.  The cases
+    carry their own stimulus steps instead, so preludes are switched off while this sub-check runs."""
+    global NO_PRELUDE
+    NO_PRELUDE = True
+    try:
+        _drv_batches(ctx, sub)
+    finally:
+        NO_PRELUDE = False
+
+
 def drv_atheris(ctx: Ctx, sub: SubCheck):
     """coverage-guided campaign in subprocesses (thorough tier); findings come back as inputs and are judged by oracle_bytes"""
     env = dict(os.environ)
@@ -1123,6 +1566,7 @@ SUBCHECKS = [
     SubCheck("documents", oracle_documents, drv_documents, "canonical buffers of 1..3 documents parse to the generated ids/tokens/values and re-serialise to identical bytes"),
     SubCheck("mode_flags", oracle_documents_modes, drv_documents_modes, "the document clauses again inside from_bytes(debug=True), after a failed debug parse, and with MBXML.DEBUG on while serialising"),
     SubCheck("lookup", oracle_lookup, drv_lookup, "documents assembled via LRRP.get_token serialise to bytes that parse back to the same token ids, values and attribute values"),
+    SubCheck("batches", oracle_batches, drv_batches, "several buffers / lookups in one process: the same element id with equal numeric value in both families (both orders, one buffer / two), near twins, kept documents serialised again at the end"),
     SubCheck("mutated", oracle_bytes, drv_mutated, "damaged/arbitrary buffers: parse terminates; if it parses, re-serialising raises only documented range rejections"),
     SubCheck("atheris", oracle_bytes, drv_atheris, "coverage-guided campaign (Atheris) on the 'mutated' oracle", tiers=("thorough",)),
 ]
